@@ -6,6 +6,7 @@ import (
 	"fmt"
 	"os"
 	"path/filepath"
+	"regexp"
 	"sort"
 	"strconv"
 	"strings"
@@ -22,6 +23,9 @@ type KnownFile struct {
 	Findings []KnownFinding `json:"findings"`
 	Fixed    []string       `json:"fixed"`
 }
+
+// obligations checked per return site carry an @retN suffix; known findings are keyed without it
+var reRetSuffix = regexp.MustCompile(`@ret\d+`)
 
 func loadKnown(verif string) KnownFile {
 	var kf KnownFile
@@ -392,7 +396,7 @@ func reportProperty(prog *Program, p, tier string, seed int, verif string, ctxs 
 	os.MkdirAll(filepath.Join(verif, "replays"), 0755)
 	emit := func(name, why, detail string, o *Obligation) {
 		for _, k := range known.Findings {
-			if k.Property == p && k.Obligation == name {
+			if k.Property == p && (k.Obligation == name || k.Obligation == reRetSuffix.ReplaceAllString(name, "")) {
 				fmt.Printf("KNOWN-FINDING: property=%s %s %s\n", p, name, k.What)
 				return
 			}
